@@ -356,6 +356,69 @@ def clause9_refused_fetch_is_gone(ctx, P, cg):
            "id is refused as 'already in use'", witness=bad.witness() if bad else None)
 
 
+def clause10_visibility_inputs(ctx, P):
+    """what a fetch is shown depends on the element's fetch groups: they are recorded for EVERY element that is added with an access
+    object, states and methods alike - every non-failing path of the function that fills the groups calls fill_fetch_groups()"""
+    hosts = {c.fn for c in Q.call_sites(P, "fill_fetch_groups")}
+    if len(hosts) != 1:
+        raise AnalysisBroken("fill_fetch_groups call sites: %d functions" % len(hosts))
+    f = next(iter(hosts))
+    others = ("fill_set_groups", "fill_call_groups")
+    bad = None
+    n = 0
+    for v in Q.path_views(ctx, P, f):
+        if not any(True for _ in v.calls(others)):
+            continue      # paths that fill nothing (no access object, early failures)
+        rc = v.ret_const()
+        if rc is not None and rc < 0:
+            continue
+        n += 1
+        if not any(True for _ in v.calls("fill_fetch_groups")):
+            bad = v
+    ctx.ob("C01.3 R-PAIR", f, "fetch-groups-filled-for-every-kind", bad is None and n > 0,
+           "%s() fills the set/call groups of an element on a path that skips fill_fetch_groups(): the element keeps fetch_groups 0, so a "
+           "fetcher that is entitled to it never sees it (or, without any registry, the restriction is lost)" % f.srcname,
+           witness=bad.witness() if bad else None)
+
+
+def clause11_fetcher_table(ctx, P):
+    """(a) a fetch is entered into the fetcher table of a state exactly once: on every successful path of add_fetch_to_state() the fetch
+    is stored into a slot once or handed to the recursive call once, never both (two entries = every change and remove twice);
+    (b) a new element is offered to the fetches of every peer on every path: the walk of find_fetchers_for_element() over the peers is
+    not skipped on account of some global state (a counter that another code path forgets to maintain)"""
+    f = P.fn("fetch.c:add_fetch_to_state")
+    fp = ("param", 1, f.params[1]["name"])
+    bad = None
+    n = 0
+    for v in Q.path_views(ctx, P, f):
+        rc = v.ret_const()
+        if rc is not None and rc != 0:
+            continue
+        entries = 0
+        for _, i in v.insts():
+            if i.op == "store" and P.term(f, i.a[0]) == fp and P.term(f, i.a[1])[0] != "alloca":
+                entries += 1
+            if i.op == "call" and i.callee == f.name and len(i.a) > 1 and P.term(f, i.a[1]) == fp:
+                entries += 1
+        n += 1
+        if entries != 1:
+            bad = (v, entries)
+    ctx.ob("C01.2 R-PAIR", f, "fetch-entered-exactly-once", bad is None and n > 0,
+           "add_fetch_to_state() enters the fetch %s times on a successful path (slot store and recursive call both count): the subscriber "
+           "is told every change and remove twice, the second remove is for a path it no longer knows" % (bad[1] if bad else "?"),
+           witness=bad[0].witness() if bad else None)
+    g = P.fn("fetch.c:find_fetchers_for_element")
+    loops = g.loops()
+    okw = len(loops) >= 1
+    if okw:
+        dom = g.dominators()
+        exits = [b for b in range(g.nblocks) if g.term_inst(b).op == "ret"]
+        okw = any(all(h in dom[b] for b in exits) for h in loops)
+    ctx.ob("C01.2 R-LOOP", g, "every-peer-is-asked-on-every-path", okw,
+           "find_fetchers_for_element() can return without walking the peers (an early exit on some global state): elements added while "
+           "that state is off are never announced or attached, their later changes and removes are lost too")
+
+
 def run(ctx):
     for cfg in ctx.configs(["default"] if ctx.tier == "quick" else None):
         P, cg = cfg.P, cfg.cg
@@ -368,5 +431,7 @@ def run(ctx):
         clause7_attach_all(ctx, P, cg)
         clause8_fetch_identity(ctx, P)
         clause9_refused_fetch_is_gone(ctx, P, cg)
+        clause10_visibility_inputs(ctx, P)
+        clause11_fetcher_table(ctx, P)
         from .c02 import clause5b_number_rendering     # 'each with its most recently accepted value': values are rendered exactly
         clause5b_number_rendering(ctx, P)
